@@ -412,6 +412,11 @@ func gtableDigest() []byte {
 	return gtableOnce.sum
 }
 
+// coldEnvs: process environments the cold-start children rotate through - run-time CPU feature
+// detection switched off (code that picks an implementation at run time takes its portable
+// path), an aggressive and a disabled garbage collector, a tiny memory limit.
+var coldEnvs = [][]string{nil, {"GODEBUG=cpu.all=off"}, {"GOGC=1"}, nil, {"GODEBUG=cpu.avx2=off,cpu.bmi2=off,cpu.adx=off,cpu.avx=off"}, {"GOGC=off"}, {"GOMEMLIMIT=16MiB", "GOGC=5"}, nil}
+
 // coldProcs are the scheduler widths (GOMAXPROCS of the child) the cold-start
 // children are run under; 0 leaves the environment alone.
 var coldProcs = []int{0, 7, 1, 3, 13, 2, 11, 32, 5, 9, 31, 6, 14, 19, 23, 64, 4, 29, 17, 21, 33, 10, 25, 27, 8, 12, 15, 18, 22, 26, 28, 37}
@@ -458,6 +463,11 @@ func runColdStart(r *mon.Run, id string, n int, ops ...string) {
 		w.Case(true, []byte("cold"), []byte(spec))
 		cmd := exec.Command(exe, "-cold", strings.Fields(spec)[0])
 		cmd.Env = append(os.Environ(), "GORACE=halt_on_error=0")
+		if ev := coldEnvs[i%len(coldEnvs)]; ev != nil {
+			cmd.Env = append(cmd.Env, ev...)
+			spec += " [" + strings.Join(ev, " ") + "]"
+			w.Class(id + ":cold:env-variant")
+		}
 		if np := coldProcs[(i/len(ops))%len(coldProcs)]; np != 0 {
 			cmd.Env = append(cmd.Env, fmt.Sprintf("GOMAXPROCS=%d", np))
 			spec += fmt.Sprintf(" [GOMAXPROCS=%d]", np)
@@ -561,6 +571,9 @@ func runConcurrentColdStart(r *mon.Run, id string, n int, ops []string) {
 		cmd.Env = append(os.Environ(), "GORACE=halt_on_error=0")
 		if np := []int{0, 0, 4, 0, 2, 0, 8, 32}[i%8]; np != 0 {
 			cmd.Env = append(cmd.Env, fmt.Sprintf("GOMAXPROCS=%d", np))
+		}
+		if ev := coldEnvs[(i/2)%len(coldEnvs)]; ev != nil {
+			cmd.Env = append(cmd.Env, ev...)
 		}
 		outb, err := cmd.CombinedOutput()
 		var got []string
